@@ -36,6 +36,36 @@ Example C12_nonvacuous :
 Proof. cbv zeta. vm_compute. reflexivity. Qed.
 
 (* ------------------------------------------------------------------ *)
+(* discrete time, offline: what the code says NOW.  ShellGen.v is regenerated on every build from the text of
+   AbstractDiscreteTimeOfflineInterpreter.evaluate / set_variable_to_ast_from_dataset, AbstractAstVisitor.visitAst,
+   AbstractAst.get_value and AbstractSpecification.get_value (tools/py2coq_shell.py, fail-closed).  On a data set with a 'time'
+   column of n >= 1 stamps that binds every variable the assertions read to a column of n values: evaluate() returns
+   Offline.evaluate of the LAST assertion, and afterwards get_value(name) is the whole column Offline.eval_off of the assertion
+   bound to the name (hence, by C12_get_offline, tab rho).  gap / update_sampling_violation_counter / create_var_from_name are
+   pinned hand-modelled parameters that are assumed not to raise. *)
+From RV Require PySem PyShell ShellGen ShellGenCorrect.
+Theorem C12_generated_get_offline :
+  forall (VS : Val) (AR : Arith VS) (T C D : Type) (gap : T -> T -> outcome D) (upd_svc : D -> C -> outcome C) (svc0 : C)
+         (create_var : nat -> outcome PyShell.vobj),
+    (forall x, create_var x = Ok PyShell.VDefault) -> (forall a b, exists d, gap a b = Ok d) ->
+    (forall d c, exists c', upd_svc d c = Ok c') ->
+    forall (s : PyShell.st T C) (ds : PyShell.dataset T) (ts : list T),
+      PyShell.ds_time ds = Some ts -> 1 <= length ts -> PyShell.specs s <> [] -> (forall x, a1 AR Neg x = neg x) ->
+      let vod := PyShell.var_object_dict (ShellGenCorrect.load s ds) in
+      let w := PyShell.trace_of vod in
+      (forall nd, In nd (PyShell.specs s) ->
+         PyShell.vars_bound vod (snd nd) = true /\ wf_bounds (snd nd) = true /\ wf_trace (snd nd) w (length ts)) ->
+      exists r s',
+        ShellGen.gen_evaluate AR gap upd_svc svc0 create_var s ds = Ok (r, s') /\
+        Ok r = evaluate AR (fun _ _ => PStd) (snd (last (PyShell.specs s) (0, Var 0))) ts w /\
+        PyShell.inputs s' = PyShell.inputs (ShellGenCorrect.load s ds) /\
+        forall name id p, PyShell.dict_get (PyShell.phi_name_to_node_dict s) name = Some id -> In (id, p) (PyShell.specs s) ->
+          (forall p', In (id, p') (PyShell.specs s) -> p' = p) ->
+          ShellGen.gen_spec_get_value s' name = Ok (PyShell.VCol (eval_off AR (fun _ _ => PStd) p w (length ts))).
+Proof. exact @ShellGenCorrect.shell_gen_refines. Qed.
+Print Assumptions C12_generated_get_offline.
+
+(* ------------------------------------------------------------------ *)
 (* dense time, online (models DenseOnlineMon.v / DenseOnlineForest.v)  *)
 (* ------------------------------------------------------------------ *)
 From RV Require Dense DenseSem DenseMerge DenseMergeCorrect DenseOnlineMergeCorrect DenseOnlineMon DenseOnlineMonCorrect DenseOnlineMonMore DenseIA
